@@ -100,6 +100,9 @@ def split_eq(t):
 
 
 class _Qap(_Backend):
+    # working state of the writer (wire and call counters) and of the splitter (its parse state)
+    assigns = ("pysnark.qaptools.backend:vc_ctr", "pysnark.qaptools.backend:vc_ioctr", "pysnark.qaptools.backend:vc_ctx",
+               "pysnark.qaptools.qapsplit:eqs", "pysnark.qaptools.qapsplit:blocks", "pysnark.qaptools.qapsplit:context")
     module = QAP
     vprops = ("C12",)
     fprops = ("C12",)
